@@ -168,7 +168,19 @@ theorem apply_frozenInv_aux (c : Cfg) {s s' : State} (hi : FrozenInv s) (auth : 
   | advance n => have e := apply_advance h; subst e; exact hi.congr rfl rfl
   | envIdOk a ok => have e := apply_envIdOk h; subst e; exact hi.congr rfl rfl
   | envRecTarget a t => have e := apply_envRecTarget h; subst e; exact hi.congr rfl rfl
-  | envCompliance ct cc => have e := apply_envCompliance h; subst e; exact hi.congr rfl rfl
+  | envModule m ct cc => have e := apply_envModule h; subst e; exact hi.congr rfl rfl
+  | addModule hk m op =>
+    obtain ⟨-, -, e⟩ := addModule_ok (apply_addModule h).2
+    subst e; exact hi.congr rfl rfl
+  | removeModule hk m op =>
+    obtain ⟨-, e⟩ := removeModule_ok (apply_removeModule h).2
+    subst e; exact hi.congr rfl rfl
+  | bindToken op =>
+    obtain ⟨-, e⟩ := bindToken_ok (apply_bindToken h).2
+    subst e; exact hi.congr rfl rfl
+  | unbindToken op =>
+    obtain ⟨-, e⟩ := unbindToken_ok (apply_unbindToken h).2
+    subst e; exact hi.congr rfl rfl
 
 /-! ### the notification log -/
 
@@ -207,7 +219,19 @@ theorem apply_notes_aux (c : Cfg) {s s' : State} (auth : List Nat) (op : Op)
   | advance n => have e := apply_advance h; subst e; simp [Op.owedNotes]
   | envIdOk a ok => have e := apply_envIdOk h; subst e; simp [Op.owedNotes]
   | envRecTarget a t => have e := apply_envRecTarget h; subst e; simp [Op.owedNotes]
-  | envCompliance ct cc => have e := apply_envCompliance h; subst e; simp [Op.owedNotes]
+  | envModule m ct cc => have e := apply_envModule h; subst e; simp [Op.owedNotes]
+  | addModule hk m op =>
+    obtain ⟨-, -, e⟩ := addModule_ok (apply_addModule h).2
+    subst e; simp [Op.owedNotes, emit]
+  | removeModule hk m op =>
+    obtain ⟨-, e⟩ := removeModule_ok (apply_removeModule h).2
+    subst e; simp [Op.owedNotes, emit]
+  | bindToken op =>
+    obtain ⟨-, e⟩ := bindToken_ok (apply_bindToken h).2
+    subst e; simp [Op.owedNotes]
+  | unbindToken op =>
+    obtain ⟨-, e⟩ := unbindToken_ok (apply_unbindToken h).2
+    subst e; simp [Op.owedNotes]
 
 /-! ### conservation (C01) for the embedded base token -/
 
@@ -276,7 +300,19 @@ theorem apply_inv_aux {U : List Nat} (hn : U.Nodup) (c : Cfg) {s s' : State} (hi
   | advance n => have e := apply_advance h; subst e; exact keep rfl rfl
   | envIdOk a ok => have e := apply_envIdOk h; subst e; exact keep rfl rfl
   | envRecTarget a t => have e := apply_envRecTarget h; subst e; exact keep rfl rfl
-  | envCompliance ct cc => have e := apply_envCompliance h; subst e; exact keep rfl rfl
+  | envModule m ct cc => have e := apply_envModule h; subst e; exact keep rfl rfl
+  | addModule hk m op =>
+    obtain ⟨-, -, e⟩ := addModule_ok (apply_addModule h).2
+    subst e; exact keep rfl rfl
+  | removeModule hk m op =>
+    obtain ⟨-, e⟩ := removeModule_ok (apply_removeModule h).2
+    subst e; exact keep rfl rfl
+  | bindToken op =>
+    obtain ⟨-, e⟩ := bindToken_ok (apply_bindToken h).2
+    subst e; exact keep rfl rfl
+  | unbindToken op =>
+    obtain ⟨-, e⟩ := unbindToken_ok (apply_unbindToken h).2
+    subst e; exact keep rfl rfl
 
 theorem ok_bind {α β} (v : α) (f : α → Except Err β) : (Except.ok v >>= f) = f v := rfl
 
@@ -310,7 +346,7 @@ theorem apply_replay_aux (c : Cfg) {s s' : State} (hr : ReplayOK s) (auth : List
     obtain ⟨b1, -, e2, hu⟩ := p.update
     rw [p.replay, hr, ← e2]; exact update_replay_transfer hu
   | approve o sp a lu =>
-    obtain ⟨-, e1, -, -, -, -, -, -, er⟩ := approve_ok (apply_approve h)
+    obtain ⟨-, e1, -, -, -, -, -, -, er, -⟩ := approve_ok (apply_approve h)
     rw [er, hr, e1]
   | mint t a op =>
     have p := mint_ok (apply_mint h).2
@@ -328,10 +364,10 @@ theorem apply_replay_aux (c : Cfg) {s s' : State} (hr : ReplayOK s) (auth : List
     · subst e; exact hr
     · rw [p.replay, hr]; exact update_replay_transfer p.update
   | freezePartial x a op =>
-    obtain ⟨-, -, eb, -, -, -, -, -, er⟩ := freezePartial_ok (apply_freezePartial h).2
+    obtain ⟨-, -, eb, -, -, -, -, -, er, -⟩ := freezePartial_ok (apply_freezePartial h).2
     rw [er, hr, eb]
   | unfreezePartial x a op =>
-    obtain ⟨-, -, eb, -, -, -, -, -, er⟩ := unfreezePartial_ok (apply_unfreezePartial h).2
+    obtain ⟨-, -, eb, -, -, -, -, -, er, -⟩ := unfreezePartial_ok (apply_unfreezePartial h).2
     rw [er, hr, eb]
   | setAddressFrozen x b op =>
     obtain ⟨-, e⟩ := apply_setAddressFrozen h
@@ -345,6 +381,18 @@ theorem apply_replay_aux (c : Cfg) {s s' : State} (hr : ReplayOK s) (auth : List
   | advance n => have e := apply_advance h; subst e; exact hr
   | envIdOk a ok => have e := apply_envIdOk h; subst e; exact hr
   | envRecTarget a t => have e := apply_envRecTarget h; subst e; exact hr
-  | envCompliance ct cc => have e := apply_envCompliance h; subst e; exact hr
+  | envModule m ct cc => have e := apply_envModule h; subst e; exact hr
+  | addModule hk m op =>
+    obtain ⟨-, -, e⟩ := addModule_ok (apply_addModule h).2
+    subst e; simp only [emit]; rw [replay_snoc]; exact hr
+  | removeModule hk m op =>
+    obtain ⟨-, e⟩ := removeModule_ok (apply_removeModule h).2
+    subst e; simp only [emit]; rw [replay_snoc]; exact hr
+  | bindToken op =>
+    obtain ⟨-, e⟩ := bindToken_ok (apply_bindToken h).2
+    subst e; exact hr
+  | unbindToken op =>
+    obtain ⟨-, e⟩ := unbindToken_ok (apply_unbindToken h).2
+    subst e; exact hr
 
 end OZ.Rwa
